@@ -336,8 +336,8 @@ type call struct {
 	err      error
 	panicked interface{}
 	returned []interface{}
-	mixed    bool  // statement-level confinement not attributable (shared batch)
-	pairOf   *call // mixed-live: the same query issued just before through another handle
+	mixed    bool // statement-level confinement not attributable (shared batch)
+	block    int  // mixed-live: identifies the reactive computation the call ran in
 }
 
 func (c *call) describe() string {
@@ -470,7 +470,8 @@ type scenario struct {
 	nextID  int
 	nextRow int64
 	txTags  map[string]bool
-	notes   []string
+	// abandoned: a reactive computation is still running; the scenario is not judged
+	abandoned bool
 }
 
 func (s *scenario) newCall(op, ctxKind, table string, handle int) *call {
@@ -972,6 +973,7 @@ func (s *scenario) runInRerunner(f func(ctx context.Context)) bool {
 		return true
 	case <-time.After(60 * time.Second):
 		s.run.Inconclusive(fmt.Sprintf("case %d: reactive computation did not finish within 60s", s.idx))
+		s.abandoned = true
 		return false
 	}
 }
@@ -980,7 +982,7 @@ func (s *scenario) play() {
 	r := s.r
 	bg := context.Background()
 	nBlocks := 3 + r.Intn(3)
-	for b := 0; b < nBlocks; b++ {
+	for b := 0; b < nBlocks && !s.abandoned; b++ {
 		h := r.Intn(len(s.handles))
 		db := s.handles[h]
 		ldb := livesql.NewLiveDB(db)
@@ -1077,7 +1079,7 @@ func (s *scenario) play() {
 				c2 := s.newCall(c1.op, "mixed-live", c1.table, h2)
 				c2.filter, c2.opts, c2.optDesc, c2.intent = c1.filter, copyOpts(c1.opts), c1.optDesc, "same-as-previous"
 				c2.classify(s.specs[h2].enforced(c2.table))
-				c2.pairOf = c1
+				c1.block, c2.block = b+1, b+1
 				first, second = append(first, c1), append(second, c2)
 			}
 			s.runInRerunner(func(ctx context.Context) {
@@ -1093,12 +1095,51 @@ func (s *scenario) play() {
 // ---- oracle ----
 
 // cacheBypass recognises the known defect "livedb-cache-skips-limit-check":
-// a LiveDB query inside a reactive computation, issued right after the same
-// query succeeded through another handle's LiveDB, that reached no statement
-// at all (it was answered from the rerunner's cache, whose key is only the
-// SQL text and arguments).
-func (c *call) cacheBypass(stmts []*fakesql.Stmt) bool {
-	return c.ctxKind == "mixed-live" && len(stmts) == 0 && c.pairOf != nil && c.pairOf.err == nil && c.pairOf.handle != c.handle
+// a LiveDB query inside a reactive computation that reached no statement at
+// all, after the same query (table, filter values, options) had succeeded
+// earlier in the same computation through the LiveDB of another handle - it
+// was answered from the rerunner's cache, whose key is only the SQL text and
+// arguments.
+func (s *scenario) cacheBypass(c *call, stmts []*fakesql.Stmt) bool {
+	if c.ctxKind != "mixed-live" || len(stmts) != 0 {
+		return false
+	}
+	for _, e := range s.calls {
+		if e.id < c.id && e.block == c.block && e.ctxKind == "mixed-live" && e.handle != c.handle && e.ran && e.err == nil &&
+			e.table == c.table && sameFilter(e.filter, c.filter) && sameOpts(e.opts, c.opts) {
+			return true
+		}
+	}
+	return false
+}
+
+// sameOpts: do the options lead to the same SQL text and arguments?
+func sameOpts(a, b *sqlgen.SelectOptions) bool {
+	if a == nil {
+		a = &sqlgen.SelectOptions{}
+	}
+	if b == nil {
+		b = &sqlgen.SelectOptions{}
+	}
+	return a.Where == b.Where && a.OrderBy == b.OrderBy && a.Limit == b.Limit && a.ForUpdate == b.ForUpdate &&
+		fmt.Sprint(a.Values) == fmt.Sprint(b.Values) && fmt.Sprint(a.UseIndex, a.ForceIndex) == fmt.Sprint(b.UseIndex, b.ForceIndex)
+}
+
+func sameFilter(a, b sqlgen.Filter) bool {
+	if len(a) != len(b) {
+		return false
+	}
+	for k, va := range a {
+		vb, ok := b[k]
+		if !ok {
+			return false
+		}
+		da, db := norm(va), norm(vb)
+		if da != db {
+			return false
+		}
+	}
+	return true
 }
 
 func sqlEqual(kind fakesql.Kind, limit interface{}, arg driver.Value) bool {
@@ -1270,7 +1311,7 @@ func (s *scenario) check(sinceSeq int64) {
 		if c.class == "noncomplying" {
 			if c.err == nil {
 				cls := ""
-				if c.cacheBypass(stmts) {
+				if s.cacheBypass(c, stmts) {
 					cls = "livedb-cache-skips-limit-check"
 				}
 				s.violation(cls, "noncomplying-nil-error", s.witness(c, "non-complying call returned a nil error", stmts))
@@ -1324,7 +1365,7 @@ func (s *scenario) check(sinceSeq int64) {
 				v, _ := fieldOf(row, p.col)
 				if !sameDenotation(norm(v), norm(p.val)) {
 					cls := ""
-					if c.cacheBypass(stmts) {
+					if s.cacheBypass(c, stmts) {
 						cls = "livedb-cache-skips-limit-check"
 					}
 					s.violation(cls, "row-outside-shard", s.witness(c, fmt.Sprintf("limited handle returned a row outside its shard: %s", derefShow(row)), stmts))
@@ -1367,6 +1408,7 @@ func limitShape(h *handleSpec, table string) string {
 }
 
 func runScenario(run *vlib.Run, i int) {
+	fmt.Println("CASE", i)
 	r := run.Rand("scenario", i)
 	eng := fakesql.New("", "verifdb")
 	defer eng.Dispose()
@@ -1417,6 +1459,9 @@ func runScenario(run *vlib.Run, i int) {
 	}
 	since := eng.Mark("scenario")
 	s.play()
+	if s.abandoned {
+		return
+	}
 	s.check(since)
 	if run.WantSample() {
 		var cs []string
@@ -1532,12 +1577,13 @@ func TestCheck(t *testing.T) {
 		"Each call is classified independently (filter / row field vs limit by denoted value): identical, equivalent (other Go type), noncomplying (wrong value, missing, nil, string for int). " +
 		"Evaluation = one call; non-trivial = the handle enforces at least one limit on the call's table; distinct = (op, context, table, limit shape, class, intent, options kind, outcome, #statements).")
 	run.Assume("fakesql parses exactly the statements sqlgen emits and reports the bound arguments faithfully (anything else is VERIF-BROKEN)")
+	run.Assume("fakesql compares strings bytewise (binary collation, no PAD SPACE) and serialises writers with one engine-wide lock (READ COMMITTED for plain SELECTs)")
 	run.Assume("limit values are comparable scalars (ints, strings, named types), as the property states")
 	run.Assume("a filter value denotes a column value by Go kind after pointer dereference (ints by numeric value, strings/[]byte by bytes); a string such as \"1\" does not denote the integer 1")
 	run.Assume("complying calls are allowed to fail (thunder compares Go values with ==, so another Go type of the same value is rejected); only statements and non-complying calls are judged")
 	reactive.WriteThenReadDelay = 0
 	pinned(run)
-	n := run.N(1500, 150000)
+	n := run.N(1500, 600000)
 	run.Each(n, 8, func(i int) {
 		runScenario(run, i)
 	})
